@@ -417,7 +417,8 @@ fn check_store(prefix: &str, who: &str, after: &str, suffix: &str, disk: &Disk, 
         let s = if suffix.is_empty() { String::new() } else { format!(":{}", suffix) };
         format!("{}:{}{}:after_{}{}", prefix, w, clause, after, s)
     };
-    let show = |s: &BTreeSet<String>| -> Vec<String> { s.iter().map(|x| x.chars().rev().take(12).collect::<String>().chars().rev().collect()).collect() };
+    // folder / secret / name, 8 characters each
+    let show = |s: &BTreeSet<String>| -> Vec<String> { s.iter().map(|x| x.split('/').map(|p| p.chars().take(8).collect::<String>()).collect::<Vec<_>>().join("/")).collect() };
     let left: BTreeSet<String> = disk.blobs.difference(expected).cloned().collect();
     let missing: BTreeSet<String> = expected.difference(&disk.blobs).cloned().collect();
     if !left.is_empty() {
@@ -536,7 +537,7 @@ fn load_content(sh: &Shared) -> ([PathBuf; 2], [Vec<u8>; 2]) {
 #[derive(Clone, Debug, Serialize, Deserialize)]
 enum Item {
     Hist { backend: Backend, root: String, first: usize },
-    Transfer { path: usize },
+    Transfer { backend: Backend, path: usize },
     Upload { part: usize, parts: usize },
 }
 
@@ -630,7 +631,7 @@ async fn explore(sh: &Shared, backend: Backend, root: &str, first: Option<usize>
                 for f in fails.0 {
                     out.fails.push(json!({"sig": f["sig"], "what": format!("{} backend, history {:?}: {}", backend.name(), h2.iter().map(|o| o.kind()).collect::<Vec<_>>(), f["what"].as_str().unwrap_or("")), "witness": {"engine": "filex", "part": "a", "backend": backend, "root": root, "history": h2, "detail": f["detail"], "op_result": r.as_ref().err()}}));
                 }
-                if out.samples.len() < 2 && h2.len() == depth {
+                if out.samples.len() < 2 && h2.len() == depth && !matches!(op, Op::Create { .. }) {
                     out.samples.push(json!({"part": "a", "backend": backend.name(), "start": if root == "P" { "two folders + one file secret" } else { "two folders" }, "history": h2, "blobs_expected_after": m.expected().len(), "op_result": r.as_ref().err()}));
                 }
                 stack.push((child, m, h2));
@@ -647,8 +648,8 @@ async fn explore(sh: &Shared, backend: Backend, root: &str, first: Option<usize>
 // part (b): transfers through the real NetworkAccount queue
 // ---------------------------------------------------------------------
 
-async fn net_open(dir: &Path, account_id: AccountId, conn: &str) -> Result<NetworkAccount> {
-    let target = target_for(dir, Backend::Fs).await?.with_account_id(&account_id);
+async fn net_open(dir: &Path, backend: Backend, account_id: AccountId, conn: &str) -> Result<NetworkAccount> {
+    let target = target_for(dir, backend).await?.with_account_id(&account_id);
     let mut a = NetworkAccount::new_unauthenticated(account_id, target, NetworkAccountOptions::default()).await?;
     a.set_connection_id(Some(conn.to_string()));
     let key: sos_core::crypto::AccessKey = vkit::acct::password().into();
@@ -680,7 +681,7 @@ async fn settle(a: &NetworkAccount) -> bool {
     }
 }
 
-async fn check_server(server: &ServerProc, account_id: &AccountId, after: &str, expected: &BTreeSet<String>, fails: &mut Fails, cnt: &mut Counters) {
+async fn check_server(server: &ServerProc, account_id: &AccountId, after: &str, suffix: &str, expected: &BTreeSet<String>, fails: &mut Fails, cnt: &mut Counters) {
     let Some(sa) = server.account(account_id).await else {
         fails.push(format!("transfer:server_has_no_account:after_{}", after), "the account is not on the server".into(), json!({}));
         return;
@@ -691,27 +692,29 @@ async fn check_server(server: &ServerProc, account_id: &AccountId, after: &str, 
     cnt.store_checks += 1;
     cnt.blobs_hashed += disk.blobs.len() as u64;
     let log = log_set(&*sa).await;
-    check_store("transfer", "server", after, "", &disk, log.as_ref().ok(), None, expected, fails);
+    check_store("transfer", "server", after, suffix, &disk, log.as_ref().ok(), None, expected, fails);
 }
 
-async fn run_transfer(sh: &Shared, path: &[Op], wd: &Path) -> ItemOut {
+async fn run_transfer(sh: &Shared, backend: Backend, path: &[Op], wd: &Path) -> ItemOut {
     let mut out = ItemOut::new();
-    let tpl = tpl_of(sh, Backend::Fs);
+    let tpl = tpl_of(sh, backend);
     let (cpaths, cbytes) = load_content(sh);
     let account_id: AccountId = tpl.account_id.parse().unwrap();
+    // signatures of the sqlite world carry the backend, the fs world's do not
+    let sfx = if backend == Backend::Db { "sqlite" } else { "" };
     let res: Result<()> = async {
         let _ = std::fs::remove_dir_all(wd);
         let (d1, d2) = (wd.join("d1"), wd.join("d2"));
         fsutil::copy_dir(Path::new(&tpl.dir_e), &d1)?;
         fsutil::copy_dir(Path::new(&tpl.dir_e), &d2)?;
-        let server = start_server(&wd.join("server"), false, None, None).await?;
-        let mut dev1 = net_open(&d1, account_id, "device_1").await?;
+        let server = start_server(&wd.join("server"), backend == Backend::Db, None, None).await?;
+        let mut dev1 = net_open(&d1, backend, account_id, "device_1").await?;
         if let Some(r) = dev1.add_server(server.origin.clone()).await? {
             if let Err(e) = r.result {
                 return Err(anyhow!("initial sync of device 1: {}", e));
             }
         }
-        let mut dev2 = net_open(&d2, account_id, "device_2").await?;
+        let mut dev2 = net_open(&d2, backend, account_id, "device_2").await?;
         if let Some(r) = dev2.add_server(server.origin.clone()).await? {
             if let Err(e) = r.result {
                 return Err(anyhow!("initial sync of device 2: {}", e));
@@ -732,10 +735,10 @@ async fn run_transfer(sh: &Shared, path: &[Op], wd: &Path) -> ItemOut {
                 fails.push(format!("transfer:device1_transfers_do_not_settle:after_{}", op.kind()), format!("the transfer queue of the editing device is still busy {:?} after the operation", SETTLE_HORIZON), json!({}));
             }
             // editing device (same oracle as part a, no decryption here)
-            check_device(&dev1, &mut m, &cbytes, "transfer", "device1", op.kind(), "", false, &mut fails, &mut out.cnt).await;
+            check_device(&dev1, &mut m, &cbytes, "transfer", "device1", op.kind(), sfx, false, &mut fails, &mut out.cnt).await;
             let expected = m.expected();
             if m.known {
-                check_server(&server, &account_id, op.kind(), &expected, &mut fails, &mut out.cnt).await;
+                check_server(&server, &account_id, op.kind(), sfx, &expected, &mut fails, &mut out.cnt).await;
             }
             // second device: sync (merges the logs, queues downloads)
             let sr = dev2.sync().await;
@@ -752,12 +755,12 @@ async fn run_transfer(sh: &Shared, path: &[Op], wd: &Path) -> ItemOut {
                 out.cnt.store_checks += 1;
                 out.cnt.blobs_hashed += disk.blobs.len() as u64;
                 let log = log_set(&dev2).await;
-                check_store("transfer", "device2", op.kind(), "", &disk, log.as_ref().ok(), None, &expected, &mut fails);
+                check_store("transfer", "device2", op.kind(), sfx, &disk, log.as_ref().ok(), None, &expected, &mut fails);
             }
             for f in fails.0[before..].iter_mut() {
                 f["detail"]["history"] = json!(done);
             }
-            out.states.insert(format!("net|{}|{}", m.canon(), if m.known { "" } else { "op failed" }));
+            out.states.insert(format!("net-{}|{}|{}", backend.name(), m.canon(), if m.known { "" } else { "op failed" }));
         }
         // the second device decrypts what it holds to the original content
         if m.known {
@@ -781,9 +784,9 @@ async fn run_transfer(sh: &Shared, path: &[Op], wd: &Path) -> ItemOut {
         let _ = dev2.sign_out().await;
         server.stop().await;
         for f in fails.0 {
-            out.fails.push(json!({"sig": f["sig"], "what": format!("history {:?}: {}", f["detail"]["history"].as_array().map(|a| a.iter().map(|o| serde_json::from_value::<Op>(o.clone()).map(|o| o.kind()).unwrap_or("?")).collect::<Vec<_>>()).unwrap_or_default(), f["what"].as_str().unwrap_or("")), "witness": {"engine": "filex", "part": "b", "path": path, "detail": f["detail"]}}));
+            out.fails.push(json!({"sig": f["sig"], "what": format!("history {:?}: {}", f["detail"]["history"].as_array().map(|a| a.iter().map(|o| serde_json::from_value::<Op>(o.clone()).map(|o| o.kind()).unwrap_or("?")).collect::<Vec<_>>()).unwrap_or_default(), f["what"].as_str().unwrap_or("")), "witness": {"engine": "filex", "part": "b", "backend": backend, "path": path, "detail": f["detail"]}}));
         }
-        out.samples.push(json!({"part": "b", "history": path, "blobs_expected_after": m.expected().len()}));
+        out.samples.push(json!({"part": "b", "backend": backend.name(), "history": path, "blobs_expected_after": m.expected().len()}));
         Ok(())
     }
     .await;
@@ -1101,8 +1104,14 @@ fn items(tier: Tier) -> (Vec<Item>, Vec<Vec<Op>>) {
             }
         }
         if root == "P" {
-            for i in 0..paths.len() {
-                v.push(Item::Transfer { path: i });
+            for backend in [Backend::Fs, Backend::Db] {
+                // quick: file-system devices and server only
+                if tier == Tier::Quick && backend == Backend::Db {
+                    continue;
+                }
+                for i in 0..paths.len() {
+                    v.push(Item::Transfer { backend, path: i });
+                }
             }
         }
     }
@@ -1160,7 +1169,7 @@ async fn run_item(sh: &Shared, it: &Item, paths: &[Vec<Op>], tier: Tier, wd: &Pa
     let _ = std::fs::create_dir_all(wd);
     let out = match it {
         Item::Hist { backend, root, first } => explore(sh, *backend, root, Some(*first), None, depth_a(tier), tier, wd).await,
-        Item::Transfer { path } => run_transfer(sh, &paths[*path], wd).await,
+        Item::Transfer { backend, path } => run_transfer(sh, *backend, &paths[*path], wd).await,
         Item::Upload { part, parts } => run_upload(sh, *part, *parts, tier, wd, None).await,
     };
     let _ = std::fs::remove_dir_all(wd);
@@ -1187,7 +1196,8 @@ fn replay(args: &Args, path: &Path) -> ! {
             }
             Some("b") => {
                 let p: Vec<Op> = serde_json::from_value(wit["path"].clone()).expect("path");
-                rt.block_on(run_transfer(&sh, &p, &wd))
+                let backend: Backend = serde_json::from_value(wit["backend"].clone()).unwrap_or(Backend::Fs);
+                rt.block_on(run_transfer(&sh, backend, &p, &wd))
             }
             _ => rt.block_on(run_upload(&sh, 0, 1, args.tier, &wd, wit["label"].as_str())),
         };
@@ -1310,7 +1320,7 @@ fn main() {
     cov.insert("exhaustive".into(), json!(true));
     cov.insert("rule".into(), json!(format!("(a) every history up to depth {da} over {{create file secret (6000-byte content in the default folder | 100-byte content in the second folder{all}), replace content (Account::update_file), update meta only, move to the other folder, delete secret, delete the second folder, archive}} x every live file secret, from the two-folder account (file-system and sqlite client backends) and from the two-folder account that already holds one file secret (i.e. depth {da1} histories that begin with a create; {pb}), explored as a tree with directory snapshots; each file encryption / decryption costs about 1 s (age scrypt), hence the shallow depth. (b) every maximal history of depth {db} from the two-folder account through the real NetworkAccount (sync + file transfer queue) against an in-process server, second device = real NetworkAccount on a copy of the initial account that syncs after every step. (c) a {blen}-byte real encrypted blob: every single-byte alteration ({vals} per position), truncation at every length, empty, 3 extended bodies, 2 wrong names, connection closed midway at {ab} length, repeated upload; each followed by a correct upload and a download. A state is the id-free model state (folder liveness, per file secret folder and content) per backend", da = depth_a(args.tier), da1 = depth_a(args.tier) + 1, pb = args.tier.pick("file-system backend only in this tier", "both backends"), db = depth_b(args.tier), all = if args.tier == Tier::Thorough { " and the two other combinations" } else { "" }, blen = std::fs::metadata(&sh.upload_blob).map(|m| m.len()).unwrap_or(0), vals = args.tier.pick("3 values", "all 255 values"), ab = args.tier.pick("every 16th", "every"))));
     cov.insert("part_a_histories_one_device".into(), json!({"histories": histories[0], "depth": depth_a(args.tier), "backends": ["fs", "sqlite"], "work_items": its.iter().filter(|i| matches!(i, Item::Hist { .. })).count()}));
-    cov.insert("part_b_transfer".into(), json!({"machinery": "real sos_net::NetworkAccount on both devices (add_server, automatic sync after every operation, its own file transfer queue); not the bare HttpClient file API", "maximal_histories": histories[1], "depth": depth_b(args.tier), "device_backends": "fs", "server_backend": "fs", "second_device_syncs": cnt.syncs}));
+    cov.insert("part_b_transfer".into(), json!({"machinery": "real sos_net::NetworkAccount on both devices (add_server, automatic sync after every operation, its own file transfer queue); not the bare HttpClient file API", "maximal_histories": histories[1], "depth": depth_b(args.tier), "device_and_server_backends": args.tier.pick("fs", "fs and sqlite"), "second_device_syncs": cnt.syncs}));
     cov.insert("part_c_upload_inputs".into(), json!({"inputs": histories[2], "http_requests": cnt.requests, "wrong_bodies_refused": refused, "correct_uploads_accepted_afterwards": accepted, "responses": upload_status}));
     cov.insert("store_checks".into(), json!(cnt.store_checks));
     cov.insert("blobs_hashed".into(), json!(cnt.blobs_hashed));
